@@ -512,6 +512,8 @@ func checkF3(c *fw.Ctx) {
 			c.Ok(rule, "CheckFields rejects events whose content is not a JSON object", c.P.Pos(fn.Pos()), "")
 		case inRegion:
 			c.Undecided(rule, "CheckFields rejects events whose content is not a JSON object", "IsObject is consulted in a helper of CheckFields; how its answer leads to a refusal was not traced")
+		case fw.OpaqueDispatch(fn) != "":
+			c.Undecided(rule, "CheckFields rejects events whose content is not a JSON object", "CheckFields works through "+fw.OpaqueDispatch(fn)+": its steps are not visible to the rule")
 		default:
 			c.Fail(rule, "CheckFields rejects events whose content is not a JSON object", c.P.Pos(fn.Pos()), "no rejection of non-object content: redaction decodes content into a map, so EventID(), Redact() and Sign() panic on such an event")
 		}
